@@ -530,6 +530,19 @@ fn run_prog<T: FloatT>(exp: &Value) -> Value {
                 }
                 Value::Array(out)
             }
+            // like "uss" with the extra getters (mean, var) next to every kept answer
+            "ussx" => {
+                let i = op[1].as_u64().unwrap() as usize;
+                let k = op[3].as_u64().unwrap() as usize;
+                let mut out = Vec::new();
+                for (j, x) in op[2].as_array().unwrap().iter().enumerate() {
+                    g_update(&mut slots[i], input::<T>(x, unit));
+                    if (j + 1) % k == 0 {
+                        out.push(json!([g_last(&mut slots[i]), g_extras(&mut slots[i])]));
+                    }
+                }
+                Value::Array(out)
+            }
             // like "uss", and additionally every answer inside the given [from, to] step ranges (1-based) is kept
             "usr" => {
                 let i = op[1].as_u64().unwrap() as usize;
